@@ -14,6 +14,7 @@ Oracle : marshaller(T), unmarshaller(T), codec(T) are built without exception wi
 from __future__ import annotations
 
 import itertools
+import re
 import sys
 import types
 import typing
@@ -183,7 +184,20 @@ def battery(T):
     return out
 
 
-def check_annotation(expr, col, passthrough=None, nontrivial=False, source="exhaustive"):
+_DYN = re.compile(r"Holder\d+|NTw\d+| at 0x[0-9a-f]+")
+
+
+def _norm(b):
+    return _DYN.sub("#", repr(b))
+
+
+def cold_battery(expr):
+    """the same battery in a process that has built no routine yet (harness.cold)"""
+    T = build(expr)
+    return _norm(battery(T))
+
+
+def check_annotation(expr, col, passthrough=None, nontrivial=False, source="exhaustive", oracle=None):
     case = {"expr": expr}
     try:
         T = build(expr)
@@ -214,6 +228,15 @@ def check_annotation(expr, col, passthrough=None, nontrivial=False, source="exha
     rec = [x for x in b1 if isinstance(x[2], tuple) and x[2][0] == "exc" and x[2][1].endswith("RecursionError")]
     if rec:
         col.violation("no-unbounded-recursion", case, f"{expr}: {rec[0][0]}({rec[0][1]}) raised RecursionError", bucket=rec[0][0])
+    if oracle is not None:
+        # building after other annotations were built in this process must behave like building first in a fresh one
+        want = oracle.query(expr)
+        col.label("compared-with-cold-process")
+        if isinstance(want, tuple) and want and want[0] == "harness-error":
+            col.label("harness:cold-oracle-error")
+        elif _norm(b1) != want:
+            col.violation("repeatable", case, f"{expr}: behaviour after earlier builds in this process differs from a fresh process: {_first_diff(_norm(b1), want)}",
+                          bucket="vs-cold-process")
     b2 = battery(T)  # cache hit
     tl.clear_all()
     b3 = battery(T)
@@ -290,6 +313,11 @@ def check_annotation(expr, col, passthrough=None, nontrivial=False, source="exha
         col.sample({"annotation": expr, "battery_outcomes": [(a, b, c[0] if isinstance(c, tuple) else c) for a, b, c in b1[:6]]})
 
 
+def _first_diff(a, b):
+    i = next((i for i, (x, y) in enumerate(zip(a, b)) if x != y), min(len(a), len(b)))
+    return f"...{a[max(0, i - 60):i + 60]!r} vs ...{b[max(0, i - 60):i + 60]!r}"
+
+
 def exhaustive_annotations():
     for leaf in LEAVES:
         yield leaf, None, False
@@ -311,12 +339,21 @@ def plan(tier, seed):
 
 
 def run_shard(shard, col):
+    from harness import cold
+    oracle = cold.Cold(cold_battery)  # forked before this worker has built any routine
+    try:
+        _run_shard(shard, col, oracle)
+    finally:
+        oracle.close()
+
+
+def _run_shard(shard, col, oracle):
     if shard["kind"] == "exh":
         for i, (expr, pt, nt) in enumerate(exhaustive_annotations()):
             if i % shard["mod"] == shard["rem"]:
                 if col.out_of_time():
                     return
-                check_annotation(expr, col, pt, nt)
+                check_annotation(expr, col, pt, nt, oracle=oracle)
         col.exhaustive_done = True
         return
 
@@ -335,7 +372,7 @@ def run_shard(shard, col):
             return UNARY[c].format(inner)
         return level(3)
 
-    core.drive(d3(), lambda e: check_annotation(e, col, None, True, "depth3"), n=shard["n"], seed=shard["seed"], col=col)
+    core.drive(d3(), lambda e: check_annotation(e, col, None, True, "depth3", oracle=oracle), n=shard["n"], seed=shard["seed"], col=col)
     col.exhaustive_done = True
 
 
